@@ -4,6 +4,7 @@ import fcntl
 import hashlib
 import json
 import os
+import re
 import shutil
 import subprocess
 import sys
@@ -57,6 +58,7 @@ def source_files():
 
 def tree_hash(files):
     h = hashlib.sha256()
+    h.update(b"objcache-v2 ")      # bumped when the reuse rule changed (included .c files count as headers)
     h.update(" ".join(CFLAGS).encode())
     for p in files:
         h.update(p.encode())
@@ -108,7 +110,13 @@ def build_objects(need_cxx=False):
         # per-file reuse: an object compiled for another tree state is taken over (hard link) when the source file,
         # every header of the tree and the flags are byte-identical; the key of each object is recorded in srchash.json
         hh = hashlib.sha256(" ".join(CFLAGS).encode())
-        for p in hdr:
+        # source files that other source files #include ("decode_cobs_zpe.c" includes "decode_cobs.c") count as headers
+        inc_names = set()
+        for p in c + cxx:
+            with open(p, "rb") as f:
+                for mm in re.finditer(rb'#\s*include\s*"([^"]+\.(?:c|cc|cpp|cxx))"', f.read()):
+                    inc_names.add(os.path.basename(mm.group(1).decode(errors="replace")))
+        for p in hdr + [q for q in c + cxx if os.path.basename(q) in inc_names]:
             hh.update(os.path.relpath(p, REPO).encode())
             with open(p, "rb") as f:
                 hh.update(hashlib.sha256(f.read()).digest())
